@@ -793,6 +793,8 @@ func (x *c17Runner) runCase(kind string, in c17Input) {
 		c17StackFromCase(x, in)
 	case "cfgwire":
 		c17CfgCase(x, in)
+	case "bound":
+		c17BoundCase(x, in)
 	case "dec":
 		t := c17TypeByName(in.Type)
 		if t == nil {
@@ -1180,6 +1182,7 @@ func c17RunModelled(x *c17Runner, r *rng, cf *commonFlags) {
 	// the stored (stack-item) form of manifests against the model
 	c17RunStackForms(x, r, cf.seed, n)
 	c17RunCfgWire(x, r, cf.seed, n)
+	c17RunBounds(x, cf.seed)
 	// zero values of every field of the modelled types: the model decides accept/reject and the bytes
 	for _, name := range []string{"tx/stream", "signer", "witness", "attr", "header", "header/sr", "block", "block/sr", "mptroot", "notification", "appexec",
 		"version", "addr", "addrlist", "inventory", "getblocks", "getblockbyindex", "headers", "ping", "mptinventory", "mptdata", "extensible", "mptnode"} {
@@ -1302,6 +1305,7 @@ func c17RunAllTypes(x *c17Runner, r *rng, cf *commonFlags, text bool) {
 	if !text {
 		c17RunStackForms(x, r, cf.seed, n)
 		c17RunCfgWire(x, r, cf.seed, n)
+		c17RunBounds(x, cf.seed)
 	}
 	x.co.extra["x_types"] = func() []string {
 		var ns []string
